@@ -116,7 +116,20 @@ def design_check(spec, workdir, tier, dev):
     ok = "Model checking completed. No error has been found." in txt
     if not ok:
         viol = re.search(r"Invariant (\w+) is violated", txt)
-        return dict(ok=False, states=dist, transitions=gen, wall=dt, out=out, invariant=viol.group(1) if viol else None, cfg=spec["cfg"])
+        cex = None
+        if viol:
+            # second run with the action history switched on: the violated invariant writes the behaviour out
+            subst2 = dict(subst)
+            subst2["KeepHist"] = "TRUE"
+            dst2 = dst + ".cex.cfg"
+            tlc_cfg(src, dst2, subst2)
+            cexp = os.path.join(workdir, os.path.basename(src) + ".cex.json")
+            if os.path.exists(cexp):
+                os.remove(cexp)
+            tlc(spec["module"], dst2, workdir, spec.get("timeout", 600), env={"VERIF_CEX": cexp})
+            if os.path.exists(cexp):
+                cex = {"id": "cex-" + os.path.basename(src), "family": spec.get("family", "econ"), "acts": json.load(open(cexp))}
+        return dict(ok=False, states=dist, transitions=gen, wall=dt, out=out, invariant=viol.group(1) if viol else None, cfg=spec["cfg"], cex=cex)
     return dict(ok=True, states=dist, transitions=gen, wall=dt, cfg=spec["cfg"], constants=subst)
 
 
@@ -219,7 +232,20 @@ ATTEST_MC = dict(module="MC_Hub.tla", cfg="MC_Attest.cfg", timeout=1500, quick={
 ATTEST_SIM = dict(module="MC_Hub.tla", cfg="MC_AttestSim.cfg", family="attest", num=(40, 600), depth=200, timeout=3000,
                   quick={"MaxLen": "40"}, thorough={"MaxLen": "60"})
 
+VALSET_MC = dict(module="MC_Hub.tla", cfg="MC_Valset.cfg", timeout=1500, quick={"MaxLen": "5"}, thorough={"MaxLen": "7"})
+VALSET_SIM = dict(module="MC_Hub.tla", cfg="MC_ValsetSim.cfg", family="valset", num=(40, 600), depth=200, timeout=3000,
+                  quick={"MaxLen": "40"}, thorough={"MaxLen": "60"})
+
 PROPS = {
+    "C09": dict(mc=[VALSET_MC], sim=[VALSET_SIM], static=["valset*.ndjson"],
+                watch=["C09:", "conf:ss"],
+                need={"SetKeys/ok": 3, "Begin/ok": 5, "Stake/ok": 2}),
+    "C16": dict(mc=[VALSET_MC], sim=[VALSET_SIM], static=["valset*.ndjson"],
+                watch=["C16:", "conf:sigs"],
+                need={"SetKeys/ok": 3, "Confirm/ok": 2, "Confirm/err": 2}),
+    "C17": dict(mc=[VALSET_MC], sim=[VALSET_SIM], static=["valset*.ndjson"],
+                watch=["C17:", "conf:keys"],
+                need={"SetKeys/ok": 3, "SetKeys/err": 3}),
     "C01": dict(mc=[ECON_MC], sim=[ECON_SIM], static=["econ*.ndjson"],
                 watch=["C01:", "conf:bal", "conf:sup"],
                 need={"ExtDeposit/ok": 3, "Claim/ok": 6, "End/ok": 3, "Send/ok": 5}),
@@ -276,6 +302,7 @@ def check_hub_property(prop, tier, seed, replay_file=None):
     log("[%s] harness built in %.0fs; deviation switches (known findings) = %s" % (prop, bt, dev))
 
     mc_results = []
+    cex_scripts = []
     scripts = []
     sim_stats = []
     if replay_file:
@@ -288,8 +315,12 @@ def check_hub_property(prop, tier, seed, replay_file=None):
             mc_results.append(r)
             log("[%s] design check %s: %d distinct states, %d transitions, %.0fs, ok=%s" % (prop, spec["cfg"], r["states"], r["transitions"], r["wall"], r["ok"]))
             if not r["ok"]:
-                raise Infra("the bounded model %s violates %s with the current deviation set; see %s "
-                            "(a model-level counterexample is not a verdict about the code)" % (spec["cfg"], r.get("invariant"), r.get("out")))
+                if r.get("cex"):
+                    # counterexample confirmation: only a failure reproduced on the real code is a verdict
+                    log("[%s] the bounded model violates %s; replaying its counterexample (%d steps) on the real application" % (prop, r.get("invariant"), len(r["cex"]["acts"])))
+                    cex_scripts.append(r["cex"])
+                else:
+                    raise Infra("the bounded model %s fails (%s) and no counterexample script could be extracted; see %s" % (spec["cfg"], r.get("invariant"), r.get("out")))
         for spec in plan["sim"]:
             s, st = simulate_scripts(spec, workdir, tier, dev, seed)
             log("[%s] simulation %s: %d behaviours, %d states, %.0fs" % (prop, spec["cfg"], len(s), st["states"], st["wall"]))
@@ -298,6 +329,7 @@ def check_hub_property(prop, tier, seed, replay_file=None):
             scripts += s
             sim_stats.append(st)
         scripts += load_static(plan.get("static", []))
+        scripts += cex_scripts
     if not scripts:
         raise Infra("no behaviours to replay")
 
@@ -323,6 +355,9 @@ def check_hub_property(prop, tier, seed, replay_file=None):
     for kid, (k, n) in known.items():
         log("KNOWN-FINDING: property=%s %s (%s; hit %d times in this run)" % (prop, k["what"], kid, n))
 
+    if cex_scripts and not fresh:
+        raise Infra("the bounded model has a counterexample that the real application does not reproduce: the specification "
+                    "(or its deviation set) is wrong, not the code; see %s" % [r.get("out") for r in mc_results if not r["ok"]])
     rc = 0
     rdir = os.path.join(ROOT, "evidence", "replay")
     if fresh:
